@@ -166,6 +166,7 @@ func runOnce(c ccase) (res batch.Result, stalled bool) {
 	decided := false
 	found := false
 
+	var third *speaker.Session
 	monitors := func(step string) {
 		if found {
 			return
@@ -174,7 +175,7 @@ func runOnce(c ccase) (res batch.Result, stalled bool) {
 		n := 0
 		var desc []string
 		for _, f := range p.FSMs() {
-			s := sess2.ConnOfFSM(f, cs['1'].s, cs['2'].s)
+			s := sess2.ConnOfFSM(f, cs['1'].s, cs['2'].s, third)
 			live := s != nil && !s.Conn.IsClosed()
 			desc = append(desc, fmt.Sprintf("fsm%d:%s live=%v", f.Index, f.State, live))
 			if f.State == "established" && live {
@@ -321,6 +322,33 @@ func runOnce(c ccase) (res batch.Result, stalled bool) {
 			}
 		}
 		monitors("the whole conversation")
+	}
+	// A further incoming connection after the collision has been resolved (e.g. the peer retries) must not become a
+	// second Established session either: the FSM that lost stays in the peer's list and must not hide the survivor.
+	if !c.Unsynced && !found && (len(strings.Join(c.Order, ""))+len(c.IDs)+len(c.Mode))%2 == 0 || !c.Unsynced && !found && c.Order[1] == "C2" {
+		anyUp := false
+		for _, x := range cs {
+			if x.s != nil && !x.s.Conn.IsClosed() && x.model == "established" {
+				anyUp = true
+			}
+		}
+		if s3, err := p.Connect(); anyUp && err == nil {
+			third = s3
+			defer sess2.Teardown(s3)
+			if _, err := s3.WaitSUTOpen(); err == nil {
+				s3.SendOpen(open())
+				sess2.Sync(s3)
+				if !s3.Conn.IsClosed() {
+					s3.SendKeepalive()
+					sess2.Sync(s3)
+				}
+				for _, x := range cs {
+					settle(x)
+				}
+				res.Count("third_connection_attempts", 1)
+				monitors("a third (incoming) connection sent OPEN and KEEPALIVE")
+			}
+		}
 	}
 	res.Count("scenarios", 1)
 	if len(c.Order) > 0 && c.Order[1] == "C2" && c.Order[2] == "O2" && c.Order[3] == "O1" {
